@@ -5,7 +5,7 @@
 From Coq Require Import List NArith.
 From N0 Require Import Base.PyStr Base.PyVal Codec.Csv Codec.CsvProofs
   Files.Bytes Files.Util Files.BytesProofs Files.SaveLoad Files.SaveLoadProofs
-  Files.CsvFile Files.CsvFileProofs.
+  Files.CsvFile Files.CsvFileProofs Files.EmptyChProofs.
 Import ListNotations.
 Local Open Scope N_scope.
 
@@ -186,3 +186,13 @@ Theorem C14_nonvacuous :
            (read_opts 44 1 (Some [(false, [65]); (false, [90])]) ChNone (Some true)) = Raise ExOther.
 Proof. exact c14_example. Qed.
 Print Assumptions C14_nonvacuous.
+
+(* contains_header given as an empty list (or an empty string) is as good as not given: the whole load - records or
+   exception - is the same, for every file and every combination of the other options (with_ch o ch = o with its
+   contains_header replaced by ch) *)
+Theorem C14_empty_contains_header_is_none :
+  forall disk o,
+  load_csv disk (with_ch o (ChList [])) = load_csv disk (with_ch o ChNone) /\
+  load_csv disk (with_ch o (ChStr [])) = load_csv disk (with_ch o ChNone).
+Proof. exact empty_contains_header_is_none. Qed.
+Print Assumptions C14_empty_contains_header_is_none.
